@@ -9,16 +9,16 @@ package types
 //verif:bound varints: every value below 2^63 (and below 2^31 for the 31-bit form)
 //verif:bound transactions of 1 input (spend, issuance, veto, coinbase) x 1 output (original, vote): one field at a time ("focus", every field in turn) is wide -- an integer anywhere in 0..2^63-1, a byte string of 0..2 arbitrary bytes, a state-data / argument list of 0..2 items of 0..2 bytes -- while all other integers are arbitrary below 128 and all other byte strings / list items have the fixed length fill (0 = nil, or 1 arbitrary byte); hashes and asset ids arbitrary; this includes the three suffix fields of an input and the suffix of an output
 //verif:bound block headers with 0..2 sup links (signature slots: the focus slot 0..2 bytes, the others fill bytes), witness 0..2 bytes; blocks of 0..2 transactions (spend x original, narrow fields) in the three serialisation forms
-//verif:bound text form: MarshalText/UnmarshalText of a 1x1 transaction, a header with one sup link and a block with one transaction, fields narrow (fill = 1)
+//verif:bound text form: MarshalText/UnmarshalText of a 1x1 transaction, a header with one sup link and a block with one transaction, fields narrow (fill = 1), hashes and asset ids fixed constants
 //verif:assume well-formed means: every integer field is below 2^63 (the writer rejects larger ones), asset version 1 and VM version 1 (the decoder rejects others), an issuance input carries the asset id computed from its own definition (as NewIssuanceInput does)
 //verif:assume SHA3-256 is an uninterpreted function without collisions (asset id of an issuance input, transaction ID)
 //verif:assume equality of values is modulo nil == empty for byte strings and lists (the decoders return nil for length 0)
 //verif:outside the JSON forms of the RPC layer (encoding/json reflection); wider shapes (more inputs/outputs, several wide fields at once)
 //verif:obligation fn=VerifC04Varint args=0 validate=20
-//verif:obligation fn=VerifC04Tx args=0,0,0;0,0,1;1,1,0;1,1,1;2,0,0;2,0,1;3,1,0;3,1,1 maps=lazy timeout=120000 validate=10
-//verif:obligation fn=VerifC04Header args=0,0;1,0;1,1;2,1 timeout=120000 validate=10
-//verif:obligation fn=VerifC04Block args=0,1;1,1;1,2;1,3;2,3 maps=lazy timeout=120000 validate=10
-//verif:obligation fn=VerifC04Text args=0;1;2 maps=lazy idx=ite timeout=120000 validate=10
+//verif:obligation fn=VerifC04Tx args=0,0,0;0,0,1;1,1,0;1,1,1;2,0,0;2,0,1;3,1,0;3,1,1 maps=lazy timeout=600000 secs=3600 validate=10
+//verif:obligation fn=VerifC04Header args=0,0;1,0;1,1;2,1 timeout=600000 secs=3600 validate=10
+//verif:obligation fn=VerifC04Block args=0,1;1,1;1,2;1,3;2,3 maps=lazy timeout=600000 secs=3600 validate=10
+//verif:obligation fn=VerifC04Text args=0;1;2 maps=lazy idx=ite timeout=600000 secs=3600 validate=10
 
 import (
 	"bytes"
@@ -54,6 +54,16 @@ func VerifC04Varint(_ int) {
 // field generator: the focus-th field drawn is wide, the others narrow
 type verifC04Gen struct {
 	n, focus, fill int
+	hashes         int
+	fixedHashes    bool // hashes and asset ids are constants (text harness: keeps the hex layer small)
+}
+
+func (g *verifC04Gen) hash(name string) bc.Hash {
+	if g.fixedHashes {
+		g.hashes++
+		return bc.Hash{V0: uint64(g.hashes), V1: 0x0102030405060708, V2: 0xfffefdfcfbfaf9f8, V3: 0x8000000000000001}
+	}
+	return verifC04Hash(name)
 }
 
 func (g *verifC04Gen) wide() bool {
@@ -104,12 +114,12 @@ func verifC04Input(g *verifC04Gen, kind int) *TxInput {
 	var in *TxInput
 	switch kind {
 	case 0:
-		in = NewSpendInput(g.list("arg"), verifC04Hash("sourceID"), bc.AssetID(verifC04Hash("asset")), g.u63("amount"), g.u63("sourcePos"), g.bytes("program"), g.list("state"))
+		in = NewSpendInput(g.list("arg"), g.hash("sourceID"), bc.AssetID(g.hash("asset")), g.u63("amount"), g.u63("sourcePos"), g.bytes("program"), g.list("state"))
 		in.TypedInput.(*SpendInput).SpendCommitmentSuffix = g.bytes("spendCommitmentSuffix")
 	case 1:
 		in = NewIssuanceInput(g.bytes("nonce"), g.u63("amount"), g.bytes("issuanceProgram"), g.list("arg"), g.bytes("assetDef"))
 	case 2:
-		in = NewVetoInput(g.list("arg"), verifC04Hash("sourceID"), bc.AssetID(verifC04Hash("asset")), g.u63("amount"), g.u63("sourcePos"), g.bytes("program"), g.bytes("vote"), g.list("state"))
+		in = NewVetoInput(g.list("arg"), g.hash("sourceID"), bc.AssetID(g.hash("asset")), g.u63("amount"), g.u63("sourcePos"), g.bytes("program"), g.bytes("vote"), g.list("state"))
 		in.TypedInput.(*VetoInput).VetoCommitmentSuffix = g.bytes("vetoCommitmentSuffix")
 	default:
 		in = NewCoinbaseInput(g.bytes("arbitrary"))
@@ -122,9 +132,9 @@ func verifC04Input(g *verifC04Gen, kind int) *TxInput {
 func verifC04Output(g *verifC04Gen, kind int) *TxOutput {
 	var out *TxOutput
 	if kind == 0 {
-		out = NewOriginalTxOutput(bc.AssetID(verifC04Hash("outAsset")), g.u63("outAmount"), g.bytes("outProgram"), g.list("outState"))
+		out = NewOriginalTxOutput(bc.AssetID(g.hash("outAsset")), g.u63("outAmount"), g.bytes("outProgram"), g.list("outState"))
 	} else {
-		out = NewVoteOutput(bc.AssetID(verifC04Hash("outAsset")), g.u63("outAmount"), g.bytes("outProgram"), g.bytes("outVote"), g.list("outState"))
+		out = NewVoteOutput(bc.AssetID(g.hash("outAsset")), g.u63("outAmount"), g.bytes("outProgram"), g.bytes("outVote"), g.list("outState"))
 	}
 	out.CommitmentSuffix = g.bytes("outputCommitmentSuffix")
 	return out
@@ -261,13 +271,13 @@ func verifC04HeaderGen(g *verifC04Gen, nSup int) BlockHeader {
 	bh := BlockHeader{
 		Version:           g.u63("version"),
 		Height:            g.u63("height"),
-		PreviousBlockHash: verifC04Hash("prev"),
+		PreviousBlockHash: g.hash("prev"),
 		Timestamp:         g.u63("timestamp"),
-		BlockCommitment:   BlockCommitment{TransactionsMerkleRoot: verifC04Hash("root")},
+		BlockCommitment:   BlockCommitment{TransactionsMerkleRoot: g.hash("root")},
 		BlockWitness:      BlockWitness(g.bytes("witness")),
 	}
 	for i := 0; i < nSup; i++ {
-		sl := &SupLink{SourceHeight: g.u63("slHeight"), SourceHash: verifC04Hash("slHash")}
+		sl := &SupLink{SourceHeight: g.u63("slHeight"), SourceHash: g.hash("slHash")}
 		sl.Signatures[0] = g.bytes("sig")
 		sl.Signatures[9] = g.bytes("sig")
 		bh.SupLinks = append(bh.SupLinks, sl)
@@ -373,7 +383,7 @@ func VerifC04Block(nTx int, serflag int) {
 
 // VerifC04Text: the hex text forms (what = 0 transaction, 1 block header, 2 block)
 func VerifC04Text(what int) {
-	g := &verifC04Gen{focus: -1, fill: 1}
+	g := &verifC04Gen{focus: -1, fill: 1, fixedHashes: true}
 	switch what {
 	case 0:
 		tx := verifC04SimpleTx(g)
